@@ -13,13 +13,15 @@ RULE = (
 
 def strategy():
     return gen_prog.program(
-        weights={"PUT": 12, "PUT-invalid": 2, "POST": 1, "DELETE": 6, "DELETE-coll": 1, "MKCOL": 2, "PROPPATCH": 2, "GET": 1, "PROPFIND": 1, "REPORT": 1, "RECREATE": 2, "RESTART": 2, "READ": 7},
+        weights={"PUT": 12, "PUT-invalid": 2, "POST": 1, "DELETE": 6, "DELETE-coll": 1, "MKCOL": 2, "PROPPATCH": 4, "GET": 1, "PROPFIND": 1, "REPORT": 1, "RECREATE": 2, "RESTART": 2, "READ": 7},
         min_steps=10,
         max_steps=28,
         cond_rate=6,
         fancy_names=False,
         sparse_rate=3,
         locked_rate=7,
+        bare_colours=True,
+        bulk_plain=True,
     )
 
 
